@@ -73,6 +73,9 @@ fn spin(n: u64) {
 pub fn managed_race(prop: &'static str, seed: u64, close: bool) -> RaceOut {
     let mut rng = Rng::derive(seed, 0x7ace, close as u64);
     let small = cfg!(miri) || std::env::var_os("VERIF_RACE_SMALL").is_some();
+    if !close && !small && prop != "C11" && seed % 5 == 2 {
+        return managed_steady_race(prop, seed);
+    }
     let dense = rng.chance(1, 2);
     // for the status sampler (C11) half of the rounds run with one or two workers only: the race-proof
     // bound "waiting <= callers inside get()" is then tight enough to see an off-by-one
@@ -307,6 +310,178 @@ pub fn managed_race(prop: &'static str, seed: u64, close: bool) -> RaceOut {
     let g = gets.load(Ordering::SeqCst) as u64;
     let desc = format!("managed race close={} regime={} threads={} iters={} start_max={} resizes={:?} gets_ok={} created={} lock_rounds={}", close, if contention { "contention" } else if storm { "storm" } else if dense { "dense" } else if few { "few" } else { "mixed" }, threads, iters, start_max, resizes, g, c, lock_rounds);
     RaceOut { violations: viol, hash: vh_common::fnv1a(desc.as_bytes()), desc: Json::obj().with("engine", "th_race").with("profile_prop", prop).with("seed", seed).with("case", desc), events: g + c as u64 + 2 + samples }
+}
+
+// ------------------------------------------------------------------ steady state
+
+pub struct SObj(Arc<Cnt>, usize);
+impl Drop for SObj {
+    fn drop(&mut self) {
+        let _ = self.0.dropped.fetch_add(1, Ordering::SeqCst);
+    }
+}
+pub struct SMgr(pub Arc<Cnt>);
+impl managed::Manager for SMgr {
+    type Type = SObj;
+    type Error = ();
+    fn create(&self) -> impl Future<Output = Result<SObj, ()>> + Send {
+        let c = self.0.clone();
+        async move {
+            let n = c.created.fetch_add(1, Ordering::SeqCst);
+            Ok(SObj(c, n))
+        }
+    }
+    fn recycle(&self, _: &mut SObj, _: &Metrics) -> impl Future<Output = RecycleResult<()>> + Send {
+        async { Ok(()) }
+    }
+    fn detach(&self, _: &mut SObj) {
+        let _ = self.0.detached.fetch_add(1, Ordering::SeqCst);
+    }
+}
+
+/// "Steady state": N objects exist from the start, at most N callers ever hold one, max_size moves
+/// between values >= N and another thread runs retain(keep everything). Whatever the interleaving,
+/// the pool then has no reason to create, destroy, refuse or reorder anything:
+///   * every non-blocking get finds a free slot AND an idle object (at most N-1 are out),
+///   * so create() is never called again and nothing is ever dropped,
+///   * with one caller the object it receives is fixed by the queue mode (LIFO: always the one it just
+///     returned; FIFO: the N objects in a fixed cycle),
+///   * retain reports between N - callers and N kept objects and removes none.
+pub fn managed_steady_race(prop: &'static str, seed: u64) -> RaceOut {
+    let mut rng = Rng::derive(seed, 0x57ead, 0);
+    let n = rng.range(2, 5) as usize;
+    let single = rng.chance(1, 2);
+    let getters = if single { 1 } else { rng.range(1, n as u64) as usize };
+    let iters = rng.range(20_000, 80_000) as usize;
+    let lifo = rng.chance(1, 2);
+    let with_retain = rng.chance(3, 4);
+    let with_resize = rng.chance(3, 4) || !with_retain;
+    let cnt = Arc::new(Cnt::default());
+    let pool: Pool<SMgr> = Pool::builder(SMgr(cnt.clone())).max_size(n).queue_mode(if lifo { managed::QueueMode::Lifo } else { managed::QueueMode::Fifo }).build().unwrap();
+    let mut viol: Vec<Violation> = Vec::new();
+    {
+        let mut first = Vec::new();
+        for _ in 0..n {
+            match poll_once(pool.timeout_get(&NB)) {
+                Some(Ok(o)) => first.push(o),
+                other => viol.push(Violation { prop, oracle: "race_call_failed", msg: format!("filling the pool: {:?}", other.map(|r| r.map(|_| ()))) }),
+            }
+        }
+        for o in first {
+            drop(o);
+        }
+    }
+    let stop = Arc::new(AtomicBool::new(false));
+    let mut hs = Vec::new();
+    for _ in 0..getters {
+        let pool = pool.clone();
+        hs.push(std::thread::spawn(move || -> Result<u64, (&'static str, String)> {
+            let mut seen: Vec<usize> = Vec::new();
+            for i in 0..iters {
+                match std::panic::catch_unwind(std::panic::AssertUnwindSafe(|| poll_once(pool.timeout_get(&NB)))) {
+                    Ok(Some(Ok(o))) => {
+                        if single {
+                            let id = o.1;
+                            let k = seen.len();
+                            if lifo && k > 0 && seen[k - 1] != id {
+                                return Err(("reuse_order", format!("LIFO pool, one caller: call {} received object {} although it had just returned object {} (objects seen so far: {:?})", i, id, seen[k - 1], &seen[k.saturating_sub(8)..])));
+                            }
+                            if !lifo && k >= n && seen[k - n] != id {
+                                return Err(("reuse_order", format!("FIFO pool of {} objects, one caller: call {} received object {}, the fixed cycle demands object {} (last objects: {:?})", n, i, id, seen[k - n], &seen[k.saturating_sub(8)..])));
+                            }
+                            if seen.len() < 4 * n + 8 {
+                                seen.push(id);
+                            } else {
+                                let _ = seen.remove(0);
+                                seen.push(id);
+                            }
+                        }
+                        drop(o);
+                    }
+                    Ok(Some(Err(e))) => return Err(("nonblocking_get_failed", format!("call {}: get failed with {:?} although at most {} of {} slots can be in use", i, e, getters - 1, n))),
+                    Ok(None) => return Err(("race_call_failed", "zero-wait get suspended".into())),
+                    Err(p) => return Err(("race_call_failed", format!("get panicked: {}", vh_common::panic_message(&*p)))),
+                }
+            }
+            Ok(iters as u64)
+        }));
+    }
+    let retainer = {
+        let (pool, stop) = (pool.clone(), stop.clone());
+        std::thread::spawn(move || -> (u64, Option<String>) {
+            let mut k = 0u64;
+            if !with_retain {
+                return (0, None);
+            }
+            while !stop.load(Ordering::Relaxed) {
+                let r = pool.retain(|_, _| true);
+                k += 1;
+                if !r.removed.is_empty() {
+                    return (k, Some(format!("retain(keep everything) removed {} objects", r.removed.len())));
+                }
+                if r.retained > n || r.retained + getters < n {
+                    return (k, Some(format!("retain(keep everything) reports {} retained objects: {} exist and at most {} are out", r.retained, n, getters)));
+                }
+            }
+            (k, None)
+        })
+    };
+    let resizer = {
+        let (pool, stop) = (pool.clone(), stop.clone());
+        let mut r2 = Rng::derive(seed, 0x57ead, 1);
+        std::thread::spawn(move || -> u64 {
+            let mut k = 0u64;
+            if !with_resize {
+                return 0;
+            }
+            while !stop.load(Ordering::Relaxed) {
+                pool.resize(n + if k % 2 == 0 { r2.range(1, 3) as usize } else { 0 });
+                k += 1;
+                spin(r2.below(60));
+            }
+            pool.resize(n);
+            k
+        })
+    };
+    let mut gets = 0;
+    for h in hs {
+        match h.join() {
+            Ok(Ok(g)) => gets += g,
+            Ok(Err((oracle, msg))) => viol.push(Violation { prop, oracle, msg }),
+            Err(_) => viol.push(Violation { prop, oracle: "race_thread_died", msg: "a worker thread died".into() }),
+        }
+    }
+    stop.store(true, Ordering::SeqCst);
+    let resizes = resizer.join().unwrap_or(0);
+    let retains = match retainer.join() {
+        Ok((k, None)) => k,
+        Ok((k, Some(msg))) => {
+            viol.push(Violation { prop, oracle: "retain_report", msg });
+            k
+        }
+        Err(_) => {
+            viol.push(Violation { prop, oracle: "race_thread_died", msg: "the retain thread died".into() });
+            0
+        }
+    };
+    let (created, dropped, detached) = (cnt.created.load(Ordering::SeqCst), cnt.dropped.load(Ordering::SeqCst), cnt.detached.load(Ordering::SeqCst));
+    if dropped > 0 || detached > 0 {
+        viol.push(Violation { prop, oracle: "healthy_object_discarded", msg: format!("{} objects were destroyed ({} detached) although nothing failed, nothing was removed and max_size never fell below the {} objects", dropped, detached, n) });
+    } else if created > n {
+        viol.push(Violation { prop, oracle: "create_with_idle_available", msg: format!("create() was called {} times: {} objects existed from the start and at most {} of them were ever out at once, so every get() had an idle object to try", created, n, getters) });
+    }
+    let st = pool.status();
+    if viol.is_empty() && (st.size != n || st.available != n || st.max_size != n || st.waiting != 0) {
+        viol.push(Violation { prop, oracle: "status_at_rest", msg: format!("at rest {:?} with {} objects and max_size {}", st, n, n) });
+    }
+    drop(pool);
+    let (c, d) = (cnt.created.load(Ordering::SeqCst), cnt.dropped.load(Ordering::SeqCst));
+    if c != d {
+        viol.push(Violation { prop, oracle: "objects_leaked", msg: format!("{} created, {} dropped after the pool is gone", c, d) });
+    }
+    let desc = format!("managed race regime=steady objects={} getters={} iters={} lifo={} retain={} resize={} gets_ok={} created={} resizes={} retains={}", n, getters, iters, lifo, with_retain, with_resize, gets, c, resizes, retains);
+    let shape = format!("steady {} {} {} {} {} {}", n, getters, lifo, with_retain, with_resize, seed);
+    RaceOut { violations: viol, hash: vh_common::fnv1a(shape.as_bytes()), desc: Json::obj().with("engine", "th_race").with("profile_prop", prop).with("seed", seed).with("case", desc), events: gets + resizes + retains }
 }
 
 // ------------------------------------------------------------------ unmanaged
@@ -667,6 +842,97 @@ pub fn managed_big_pool(prop: &'static str, n: usize, lifo: bool) -> Vec<Violati
     let created = cnt.created.load(Ordering::SeqCst);
     if created != n {
         v.push(Violation { prop, oracle: "create_with_idle_available", msg: format!("pool with max_size {}: {} objects were created over two rounds of {} gets", n, created, n) });
+    }
+    v
+}
+
+
+// ------------------------------------------------------------------ take() with a failing detach
+
+pub struct PMgr(pub Arc<AtomicBool>);
+impl managed::Manager for PMgr {
+    type Type = u32;
+    type Error = ();
+    fn create(&self) -> impl Future<Output = Result<u32, ()>> + Send {
+        async { Ok(0) }
+    }
+    fn recycle(&self, _: &mut u32, _: &Metrics) -> impl Future<Output = RecycleResult<()>> + Send {
+        async { Ok(()) }
+    }
+    fn detach(&self, _: &mut u32) {
+        if self.0.swap(false, Ordering::SeqCst) {
+            std::panic::panic_any(vh_common::InjectedPanic(77));
+        }
+    }
+}
+
+/// `max` objects are out, `k` of them are taken and the manager's detach panics each time (user code the
+/// pool runs after it has let the object go); optionally a caller is waiting for a slot meanwhile.
+/// Afterwards the pool must serve the waiter and hand out exactly `max` objects again.
+pub fn take_with_panicking_detach(prop: &'static str, max: usize, k: usize, waiter: bool, lifo: bool) -> Vec<Violation> {
+    let mut v = Vec::new();
+    let arm = Arc::new(AtomicBool::new(false));
+    let pool: Pool<PMgr> = Pool::builder(PMgr(arm.clone())).max_size(max).queue_mode(if lifo { managed::QueueMode::Lifo } else { managed::QueueMode::Fifo }).build().unwrap();
+    let what = format!("max_size {}, {} objects taken with a panicking detach, waiter={}", max, k, waiter);
+    let mut held = Vec::new();
+    for _ in 0..max {
+        match poll_once(pool.timeout_get(&NB)) {
+            Some(Ok(o)) => held.push(o),
+            other => {
+                v.push(Violation { prop, oracle: "capacity_probe", msg: format!("{}: filling the pool: {:?}", what, other.map(|r| r.map(|_| ()))) });
+                return v;
+            }
+        }
+    }
+    let mut waiting = if waiter { Some(Box::pin(pool.get())) } else { None };
+    if let Some(f) = waiting.as_mut() {
+        if super::poll_pinned(f.as_mut()).is_some() {
+            v.push(Violation { prop, oracle: "capacity_probe_extra", msg: format!("{}: a get() on the full pool completed", what) });
+            return v;
+        }
+    }
+    for _ in 0..k {
+        let o = held.pop().unwrap();
+        arm.store(true, Ordering::SeqCst);
+        let r = std::panic::catch_unwind(std::panic::AssertUnwindSafe(|| managed::Object::take(o)));
+        if r.is_ok() && arm.load(Ordering::SeqCst) {
+            v.push(Violation { prop, oracle: "take_detach", msg: format!("{}: take() did not call Manager::detach", what) });
+        }
+        arm.store(false, Ordering::SeqCst);
+    }
+    if let Some(mut f) = waiting.take() {
+        match std::panic::catch_unwind(std::panic::AssertUnwindSafe(|| super::poll_pinned(f.as_mut()))) {
+            Ok(Some(Ok(o))) => held.push(o),
+            Ok(Some(Err(e))) => v.push(Violation { prop, oracle: "unexpected_error", msg: format!("{}: the waiting get() failed with {:?}", what, e) }),
+            Ok(None) => v.push(Violation { prop, oracle: "stranded_waiter", msg: format!("{}: the waiting get() is still pending although {} slots were freed by take() (status {:?})", what, k, pool.status()) }),
+            Err(p) => v.push(Violation { prop, oracle: "operation_panicked", msg: format!("{}: the waiting get() panicked: {}", what, vh_common::panic_message(&*p)) }),
+        }
+    }
+    drop(held);
+    let mut got = Vec::new();
+    for i in 0..=max {
+        match std::panic::catch_unwind(std::panic::AssertUnwindSafe(|| poll_once(pool.timeout_get(&NB)))) {
+            Ok(Some(Ok(o))) => {
+                if i == max {
+                    v.push(Violation { prop, oracle: "capacity_probe_extra", msg: format!("{}: the pool hands out {} objects at once", what, max + 1) });
+                }
+                got.push(o);
+            }
+            Ok(Some(Err(PoolError::Timeout(TimeoutType::Wait)))) => {
+                if i < max {
+                    v.push(Violation { prop, oracle: "capacity_probe", msg: format!("{}: afterwards only {} objects can be out at once (status {:?})", what, i, pool.status()) });
+                }
+                break;
+            }
+            Ok(other) => {
+                v.push(Violation { prop, oracle: "capacity_probe_error", msg: format!("{}: probe get: {:?}", what, other.map(|r| r.map(|_| ()))) });
+                break;
+            }
+            Err(p) => {
+                v.push(Violation { prop, oracle: "operation_panicked", msg: format!("{}: a later get() panicked: {}", what, vh_common::panic_message(&*p)) });
+                break;
+            }
+        }
     }
     v
 }
